@@ -305,6 +305,9 @@ func (x *Exec) yieldOp(fr *frame, what string, key interface{}, write bool) {
 	th.sinceVisible = 0
 	th.state = what
 	th.opKey, th.opWrite, th.opKnown = key, write, key != nil
+	if write || key == nil {
+		x.roSpin = 0
+	}
 	sc.visible++
 	sc.yieldCh <- thrMsg{th: th, kind: "yield"}
 	<-th.resume
@@ -319,6 +322,7 @@ func (x *Exec) block(fr *frame, what string, pred func() bool) {
 	th := x.cur
 	th.sinceVisible = 0
 	th.blocked = pred
+	x.roSpin = 0
 	th.state = what
 	if sc == nil {
 		abortf("block without scheduler")
